@@ -103,6 +103,13 @@ def variant_faults(inp, base):
             return None
         for d in diags:
             out.append({"code": d["code"], "file": name, "line": 1})
+    elif t == "toklines":
+        # every token on its own line: the same diagnostics, wherever they land (Diagnostics.tla decides whether each starts on
+        # the line of the first character it covers); unterminated literals are ended by the line break in both layouts
+        if any(100 <= c < 200 for c in codes):
+            return None
+        for d in diags:
+            out.append({"code": d["code"], "file": name})
     elif t == "nonl":
         for d in diags:
             if d["end"] >= trimmed:       # located in (or behind) the removed tail: only the code is expected
